@@ -463,6 +463,9 @@ class ShardedSettings(SubCheck):
                 # the process that created the cache was killed after this many shard directories (0 = not): creation is
                 # completed by the next open with the same arguments
                 'partial': st.integers(0, 4),
+                # ... and whether the kill fell before the next shard's directory was made or between making it and creating
+                # its database (the directory is there, empty)
+                'partial_dir_left': st.booleans(),
                 'spell': st.tuples(st.sampled_from(['absolute', 'absolute', 'tilde', 'envvar']), st.sampled_from(['absolute', 'tilde', 'envvar'])),
             }
         )
@@ -496,6 +499,8 @@ class ShardedSettings(SubCheck):
                     fc.close()
                     for i in range(partial, shards):
                         shutil.rmtree(os.path.join(path, '%03d' % i))
+                    if case.get('partial_dir_left'):
+                        os.mkdir(os.path.join(path, '%03d' % partial))
                     fc = diskcache.FanoutCache(first, shards=shards, **kw)
                     handles.append(fc)
                 keys, seen = [], set()
@@ -555,7 +560,7 @@ class ShardedSettings(SubCheck):
                         raise Violation('C18/settings-lost/fanout-%s' % key, 'shard %d persists %s=%r after %s, created with %r' % (i, key, s[key], case['how'], kw[key]))
             if os.path.realpath(view.directory) != os.path.realpath(path):
                 raise Violation('C18/sharded/directory', 'opened as %r the cache reports directory %r, expected %r' % (again, view.directory, path))
-            return {'nontrivial': case['size_limit'] not in (None, 2**30) or shards >= 2, 'classes': ['kind=' + case['kind'], 'how=' + case['how'], 'spelled=%s/%s' % tuple(case.get('spell', ('absolute', 'absolute')))] + (['creation-interrupted'] if 0 < case.get('partial', 0) < shards and case['kind'] == 'fanout' else [])}
+            return {'nontrivial': case['size_limit'] not in (None, 2**30) or shards >= 2, 'classes': ['kind=' + case['kind'], 'how=' + case['how'], 'spelled=%s/%s' % tuple(case.get('spell', ('absolute', 'absolute')))] + (['creation-interrupted' + ('/empty-shard-directory' if case.get('partial_dir_left') else '')] if 0 < case.get('partial', 0) < shards and case['kind'] == 'fanout' else [])}
         finally:
             for h in handles:
                 try:
